@@ -201,6 +201,7 @@ End Reach.
 Ltac step_inv H :=
   unfold step in H;
   match type of H with (match ?e with _ => _ end) = Some _ => destruct e end;
+  try discriminate H;
   repeat (match type of H with
           | context [match ?x with _ => _ end] =>
               match x with
